@@ -168,7 +168,7 @@ def from_xir_to_tdm(xir_prog: xir.Program) -> TDMProgram:
                 args[i][j] = complex(p)
 
     # append the quantum operations
-    with prog.context(*args) as (p, q):
+    with prog.context(*args, shift=xir_prog.options.get("shift", "default")) as (p, q):
         for op in get_expanded_statements(xir_prog):
             # check if operation name is in the list of
             # defined StrawberryFields operations.
@@ -237,6 +237,8 @@ def to_xir(prog: Program, **kwargs) -> xir.Program:
     if isinstance(prog, TDMProgram):
         xir_prog.add_option("_type_", "tdm")
         xir_prog.add_option("N", prog.N)
+        if getattr(prog, "shift", "default") != "default":
+            xir_prog.add_option("shift", prog.shift)
         for i, p in enumerate(prog.tdm_params):
             xir_prog.add_constant(f"p{i}", _listr(p))
 
